@@ -92,7 +92,7 @@ func (sim) Explain(prop string, st map[string]int64) string {
 			"probe.rejection-of-recorded-tx", "probe.resend-with-unmined", "probe.resend-chain", "fault.backend-answer.transport", "fault.backend-answer.reject-fee",
 			"fault.backend-answer.reject-generic", "fault.backend-answer.reject-conflict", "fault.backend-answer.notify-received-fails", "fault.backend-answer.notify-received-2nd-fails", "probe.resend-rejected", "probe.rejection-with-recorded-child", "probe.resend-child-of-two-outputs-of-one-parent", "probe.foreign-child-of-wallet-tx", "fault.crash-before-broadcast"}
 	case "C12":
-		probes = []string{"probe.c12w-checked", "probe.c12w-active-lease-checked", "probe.c12w-leased-coin-spent-outside", "probe.c12w-spent-outside-while-wallet-down", "probe.c12w-confirmed-spend-of-leased-output"}
+		probes = []string{"probe.c12w-checked", "probe.c12w-active-lease-checked", "probe.c12w-leased-coin-spent-outside", "probe.c12w-spent-outside-while-wallet-down", "probe.c12w-confirmed-spend-of-leased-output", "probe.c12w-lease-beside-coin-selection", "probe.c12w-lease-committed-before-the-selecting-transaction-began"}
 	case "C10":
 		probes = []string{"fault.db.write", "fault.db.commit", "probe.fault-fired-in:importdry2", "probe.fault-fired-in:importacct", "probe.fault-fired-in:newaddr", "probe.fault-fired-in:newaddri", "probe.fault-fired-in:newacct", "probe.restart-observations"}
 	case "C03", "C05", "C08":
@@ -960,6 +960,10 @@ func (rs *runState) exec(task, step int, op core.Op) {
 	case "lease12":
 		if x.running {
 			rs.lease12(step, op)
+		}
+	case "leaserace":
+		if x.running {
+			rs.leaserace(step, op)
 		}
 	case "release12":
 		if x.running {
